@@ -1,5 +1,6 @@
 import PbProps.C01
 import PbProps.C02
+import PbProps.C06
 import PbProps.C10
 import PbProps.C12
 import PbProps.C18
